@@ -375,6 +375,122 @@ func dfScenario(r *Rand, dom string, addr string, qt int, name []byte, big bool)
 	return "srv " + l
 }
 
+// ---- well-formed commands that do not belong ----
+
+// dfStray is one well-formed tunnel command, sent by `from` for identifier `uid`
+type dfStray struct {
+	what string
+	send func(b *dsBuilder, from string, uid int)
+}
+
+// dfStrayVariants: every command letter; for set-options every combination of the close flag (absent / set / cleared)
+// with presence of the lazy, multi-query, upstream codec, downstream codec and fragment size fields (valid size, 0);
+// packets with and without payload, in-order / future / replayed sequence numbers, acknowledgements that would release
+// everything; fragment-size tests at the limits; codec tests; version requests (right / wrong protocol version)
+func dfStrayVariants() []dfStray {
+	var vs []dfStray
+	for closed := 0; closed < 3; closed++ {
+		for mask := 0; mask < 16; mask++ {
+			for _, frag := range []int64{-1, 200, 0} {
+				closed, mask, frag := closed, mask, frag
+				vs = append(vs, dfStray{fmt.Sprintf("o/closed=%d/mask=%d/frag=%d", closed, mask, frag), func(b *dsBuilder, from string, uid int) {
+					o := &commands.SetOptionsRequest{}
+					switch closed {
+					case 1:
+						o.Closed = bp(true)
+					case 2:
+						o.Closed = bp(false)
+					}
+					if mask&1 != 0 {
+						o.LazyMode = bp(true)
+					}
+					if mask&2 != 0 {
+						o.MultiQuery = bp(false)
+					}
+					if mask&4 != 0 {
+						o.UpstreamEncoder = enc.Base64Encoding
+					}
+					if mask&8 != 0 {
+						o.DownstreamEncoder = dsEncoder('U')
+					}
+					if frag >= 0 {
+						o.DownstreamFragmentSize = u32p(uint32(frag))
+					}
+					b.options(from, uid, o)
+				}})
+			}
+		}
+	}
+	type pk struct {
+		ack  uint16
+		seq  int
+		data string
+	}
+	for _, p := range []pk{{65535, -1, ""}, {0, -1, ""}, {3, -1, ""}, {65535, 0, "stray-0"}, {0, 1, "stray-1"}, {1, 2, "stray-2"}, {65535, 5, "future"}, {2, 65535, "replay"}, {65535, 300, "far"}} {
+		p := p
+		vs = append(vs, dfStray{fmt.Sprintf("c/ack=%d/seq=%d", p.ack, p.seq), func(b *dsBuilder, from string, uid int) {
+			var pkt *util.Packet
+			if p.seq >= 0 {
+				pkt = &util.Packet{SeqNo: uint16(p.seq), Data: []byte(p.data)}
+			}
+			b.packet(from, uid, p.ack, pkt, 40)
+		}})
+	}
+	for _, size := range []uint32{0, 10, 1200, 65535, 65536} {
+		size := size
+		vs = append(vs, dfStray{fmt.Sprintf("r/%d", size), func(b *dsBuilder, from string, uid int) { b.fragTest(from, uid, size) }})
+	}
+	for _, pat := range []string{"", "aA-Aaahhh"} {
+		pat := pat
+		vs = append(vs, dfStray{"z/" + pat, func(b *dsBuilder, from string, uid int) { b.upTest(from, uid, []byte(pat)) }})
+	}
+	vs = append(vs,
+		dfStray{"v/right", func(b *dsBuilder, from string, uid int) { b.open(from, sadns.ProtocolVersion) }},
+		dfStray{"v/wrong", func(b *dsBuilder, from string, uid int) { b.open(from, 7) }},
+		dfStray{"y/T", func(b *dsBuilder, from string, uid int) { b.downTest(from, 'T') }},
+		dfStray{"y/?", func(b *dsBuilder, from string, uid int) { b.downTest(from, 'Q') }})
+	return vs
+}
+
+// dfStrayScenario: a1 holds identifiers 0 (options changed, payload moved both ways, a chunk in flight) and 2 (closed:
+// retired), a2 holds 1 (payload in flight), 3.. were never issued.  `from` (a2: owns another session; a3: owns nothing;
+// a1: owns 0 but not 1) sends the command for each of the identifiers 0, 1, 2, 3, 1295 it does not own, and after each
+// stray both established sessions continue their own numbered traffic; at the end options, a test and a Write on them.
+func dfStrayScenario(r *Rand, dom string, from string, v dfStray) string {
+	b := dsNewBuilder(r, dom)
+	b.open("a1", sadns.ProtocolVersion) // 0
+	b.open("a2", sadns.ProtocolVersion) // 1
+	b.open("a1", sadns.ProtocolVersion) // 2
+	b.options("a1", 0, &commands.SetOptionsRequest{MultiQuery: bp(true), DownstreamEncoder: dsEncoder('S'), DownstreamFragmentSize: u32p(7)})
+	b.packet("a1", 0, 65535, &util.Packet{SeqNo: 0, Data: []byte("zero-up-0")}, 40)
+	b.write(0, []byte("zero-down-in-three-chunks"))
+	b.packet("a1", 0, 65535, nil, 40)
+	b.packet("a2", 1, 65535, &util.Packet{SeqNo: 0, Data: []byte("one-up-0")}, 40)
+	b.write(1, []byte("one-down"))
+	b.options("a1", 2, &commands.SetOptionsRequest{Closed: bp(true)})
+	seq := map[string]uint16{"a1": 1, "a2": 1}
+	ack := map[string]uint16{"a1": 0, "a2": 65535}
+	own := map[string]int{"a1": 0, "a2": 1}
+	for _, uid := range []int{0, 1, 2, 3, 1295} {
+		if b.ownerLive(uid, from) != nil {
+			continue
+		}
+		v.send(b, from, uid)
+		for _, o := range []string{"a1", "a2"} {
+			b.packet(o, own[o], ack[o], &util.Packet{SeqNo: seq[o], Data: []byte(fmt.Sprintf("%s-up-%d", o, seq[o]))}, 40)
+			seq[o]++
+			ack[o]++
+		}
+	}
+	b.options("a2", 1, &commands.SetOptionsRequest{LazyMode: bp(true)})
+	b.fragTest("a1", 0, 5)
+	b.packet("a1", 0, ack["a1"], nil, 40)
+	b.packet("a2", 1, ack["a2"], nil, 40)
+	b.write(1, []byte("one-tail"))
+	b.packet("a2", 1, ack["a2"], nil, 40)
+	return "srv " + b.line()
+}
+
 // mutations of a valid request name: truncations, odd user ids, odd sizes
 func dfMutations(r *Rand, dom string) [][]byte {
 	b := dsNewBuilder(r, dom)
@@ -549,6 +665,27 @@ func (dfComp) Gen(r *Rand, tier string, emit func(string)) {
 		for _, n := range dfMutations(r, dom) {
 			emit(dfScenario(r, dom, "a1", dsQtypesBig[r.Intn(3)], n, false))
 			emit(dfScenario(r, dom, "a2", dsQtypesKnown[r.Intn(8)], n, false))
+		}
+	}
+	// well-formed commands from the wrong address / for another session, interleaved with established traffic
+	for i, v := range dfStrayVariants() {
+		for j, from := range []string{"a2", "a3", "a1"} {
+			if tier == "thorough" {
+				emit(dfStrayScenario(r, doms[0], from, v))
+				emit(dfStrayScenario(r, doms[1], from, v))
+			} else {
+				emit(dfStrayScenario(r, doms[(i+j)%2], from, v))
+			}
+		}
+	}
+	// random multi-session histories (the generator of dnssess): every command from owners, former owners and strangers
+	{
+		n, depth := 300, 40
+		if tier == "thorough" {
+			n, depth = 3000, 70
+		}
+		for i := 0; i < n; i++ {
+			emit("srv " + dsHistory(r, doms[r.Intn(len(doms))], 4+r.Intn(depth)))
 		}
 	}
 	// sizes that may cost gigabytes: in a child process with an address-space limit
